@@ -771,7 +771,7 @@ PROPS["C06"] = dict(
 )
 
 PROPS["C20"] = dict(
-    variant="plain",
+    variant="asan",      # handles into the opcode-set table must stay valid: a stale one is a heap-use-after-free
     sources=ENGINE + ["props/c20_extension.c"],
     level="exploration",
     technique="model-based property testing (rapidcheck): generated registration histories of extension opcode sets and rule sets, a model predicting the rule that must be chosen, instrumented application rules and emulation functions, C interpretation of generated mixed programs as result oracle",
